@@ -479,3 +479,47 @@ Definition check_ice2
   | Some b => list_beq obs2_eqb (ice2_run block meta ops (mki b body caps 0 false false)) seen
   | None => false
   end.
+
+(* ------------------------------------------------------------------ two threads on one buffer *)
+
+(* PatchedIceCastClient runs the download loop in its own thread; the reader calls
+   read()/seek() from another.  add() is a read-modify-write of the shared attribute:
+
+       room = min(len(data), self._buffer_size - len(self._buffer))     (load 1)
+       self._buffer += data[0:room]                                      (load 2 ... store)
+
+   [add_room], [add_load], [add_store] are these three accesses; another thread's operation
+   may run between any two of them unless both sides hold _buffer_lock. *)
+Definition add_room (d : data) (b : sbuf) : N := N.min (dlen d) (b_size b - dlen (b_buf b)).
+Definition add_load (b : sbuf) : data := b_buf b.
+Definition add_store (old : data) (room : N) (d : data) (b : sbuf) : sbuf :=
+  set_buf b (old ++ dtake room d).
+
+(* One turn of the download loop raced with one reader operation: with the lock in place the
+   outcome is that of one of the two serial orders.  The harness drives the real code through
+   explicit schedules (the other party runs at the k-th access to the shared state) and
+   reports the reader's result and the state after both have finished. *)
+Inductive rop := RPlain (o : iop) | RRace (c : iop).
+
+Fixpoint race_check (block meta : N) (ops : list rop) (seen : list obs2) (s : ist) : bool :=
+  match ops, seen with
+  | [], [] => true
+  | RPlain o :: t, ob :: seen' =>
+      let '(r, s') := ice2_step block meta o s in
+      obs2_eqb (observe2 r s') ob && race_check block meta t seen' s'
+  | RRace c :: t, ob :: seen' =>
+      let '(r1, s1) := ice2_step block meta c (ice2_download block meta s) in      (* loop turn, then reader *)
+      let '(r2, sc) := ice2_step block meta c s in                                 (* reader, then loop turn *)
+      let s2 := ice2_download block meta sc in
+      (obs2_eqb (observe2 r1 s1) ob && race_check block meta t seen' s1)
+      || (obs2_eqb (observe2 r2 s2) ob && race_check block meta t seen' s2)
+  | _, _ => false
+  end.
+
+Definition check_race
+  (c : N * N * N * N * bool * data * list (option N) * list rop * list obs2) : bool :=
+  let '(block, meta, size, head, prot, body, caps, ops, seen) := c in
+  match buf_new size head prot with
+  | Some b => race_check block meta ops seen (mki b body caps 0 false false)
+  | None => false
+  end.
